@@ -136,6 +136,9 @@ pub fn c08_configs(thorough: bool) -> Vec<EpCfg> {
                 c.alph.defer_pubrel = true;
                 c.alph.early_peer_traffic = true;
                 c.alph.second_connack = true;
+                c.alph.disconnect = true;
+                c.alph.peer_disconnect = true;
+                c.alph.disconnect_expiry0 = true;
                 // erase_stored_publish() as the application's message-expiry hook: releases a stored PUBLISH,
                 // must not touch an exchange that is past PUBREC
                 c.alph.erase = true;
